@@ -62,12 +62,14 @@ ASSUMPTIONS = ["optlib='random' with a seed: settings do not depend on the "
                "order results are reported in (differential oracle)"]
 NPROC = 16
 
-NETS = ["ring5", "grid6", "tree7"]
+NETS = ["ring5", "grid6", "tree7", "hyper4", "batch4"]
 METHOD_SETS = {
     "greedy": ["greedy"],
     "greedy+random": ["greedy", "random"],
     "rgreedy+labels": ["random-greedy", "labels"],
     "greedy+failing": ["greedy", "verif-raise", "verif-badtrial"],
+    # the failing method listed FIRST, and one that has parameters
+    "failing-param+greedy": ["verif-raise-param", "greedy"],
 }
 MINIMIZE = ["flops", "size", "write", "combo", "limit"]
 POST = {
@@ -103,6 +105,11 @@ def register_failing_methods():
 
     hy.register_hyper_function("verif-raise", raise_fn, {})
     hy.register_hyper_function("verif-badtrial", bad_fn, {})
+    # a failing method WITH a parameter space (so that every optlib can be
+    # set up for it)
+    hy.register_hyper_function(
+        "verif-raise-param", raise_fn,
+        {"x": {"type": "FLOAT", "min": 0.0, "max": 1.0}})
 
 
 def units(tier, seed):
@@ -228,16 +235,31 @@ def check_search(opt, tree, q, max_repeats, trials=None):
         if opt.best.get(k) != st[k]:
             bad.append((f"best-{k}-differs-from-tree", opt.best.get(k),
                         st[k]))
+    # ... and the figures the tree reports are the TRUE ones: those of a tree
+    # rebuilt from scratch from its path and sliced indices
+    import cotengra as ctg
+
+    rebuilt = ctg.ContractionTree.from_path(inputs, output, sd,
+                                            path=tree.get_path())
+    for ix, si in tree.sliced_inds.items():
+        rebuilt.remove_ind_(ix, project=si.project)
+    rs = rebuilt.contract_stats()
+    for k in ("flops", "write", "size"):
+        if rs[k] != st[k]:
+            bad.append((f"tree-{k}-differs-from-rebuilt-tree", st[k], rs[k]))
+    if len({len(opt.scores), len(opt.costs_flops), len(opt.costs_write),
+            len(opt.costs_size), len(opt.method_choices),
+            len(opt.param_choices)}) != 1:
+        bad.append(("trial-records-out-of-step", len(opt.scores),
+                    len(opt.costs_flops), len(opt.costs_write),
+                    len(opt.costs_size), len(opt.method_choices)))
+        return bad
     # the recorded row of the winning trial
     i = opt.scores.index(min(opt.scores))
     row = (opt.costs_flops[i], opt.costs_write[i], opt.costs_size[i])
     if row != (st["flops"], st["write"], st["size"]):
         bad.append(("recorded-row-of-winner-differs-from-tree", row,
                     (st["flops"], st["write"], st["size"])))
-    if len({len(opt.scores), len(opt.costs_flops), len(opt.costs_write),
-            len(opt.costs_size), len(opt.method_choices),
-            len(opt.param_choices)}) != 1:
-        bad.append(("trial-records-out-of-step",))
     for m, s in zip(opt.method_choices, opt.scores):
         if m.startswith("verif-") and math.isfinite(s):
             bad.append(("failing-trial-has-finite-score", m, s))
@@ -282,8 +304,8 @@ def work(unit):
                     if any(k in POST_FORESTED for k in c)]
         for post in subsets:
             for optlib in ("random", "cmaes"):
-                if optlib == "cmaes" and ("failing" in ms or "random" in
-                                          METHOD_SETS[ms]):
+                if optlib == "cmaes" and (ms == "greedy+failing" or "random"
+                                          in METHOD_SETS[ms]):
                     # cmaes cannot be set up for parameterless methods
                     continue
                 res.evals += 1
